@@ -507,10 +507,29 @@ func (x *fx) pureMethod(recv *Val, name string, args []*Val, m *memNode) *Val {
 		panic(specErr("pure method must have exactly one result: " + name))
 	}
 	rt := sig.Results().At(0).Type()
-	x.declareFun(fname, sorts, x.sortOf(rt))
+	if !x.declSeen[fname] {
+		x.declareFun(fname, sorts, x.sortOf(rt))
+		x.assume(x.ufValidAxiom(fname, sorts, rt))
+	}
 	r := "(" + fname + " " + strings.Join(terms, " ") + ")"
-	x.assume(x.valid(r, rt, x.top0))
 	return &Val{T: rt, S: r}
+}
+
+// ufValidAxiom: every application of the uninterpreted function yields a
+// well-typed value (stated once, as a quantified axiom, so that it also
+// covers applications under quantifiers).
+func (x *fx) ufValidAxiom(fname string, sorts []string, rt types.Type) string {
+	var bs, as []string
+	for i, s := range sorts {
+		bs = append(bs, fmt.Sprintf("(a%d %s)", i, s))
+		as = append(as, fmt.Sprintf("a%d", i))
+	}
+	app := "(" + fname + " " + strings.Join(as, " ") + ")"
+	v := x.valid(app, rt, x.top0)
+	if v == "true" {
+		return "true"
+	}
+	return fmt.Sprintf("(forall (%s) (! %s :pattern (%s)))", strings.Join(bs, " "), v, app)
 }
 
 func (x *fx) pureFnCall(fv *Val, sig *types.Signature, args []*Val) *Val {
@@ -525,11 +544,11 @@ func (x *fx) pureFnCall(fv *Val, sig *types.Signature, args []*Val) *Val {
 	}
 	rt := sig.Results().At(0).Type()
 	fname := "|fncall" + key + "|"
-	x.declareFun(fname, sorts, x.sortOf(rt))
-	r := "(" + fname + " " + strings.Join(terms, " ") + ")"
-	if _, ok := isInt(rt); ok {
-		x.assume(x.inRange(r, rt))
+	if !x.declSeen[fname] {
+		x.declareFun(fname, sorts, x.sortOf(rt))
+		x.assume(x.ufValidAxiom(fname, sorts, rt))
 	}
+	r := "(" + fname + " " + strings.Join(terms, " ") + ")"
 	return &Val{T: rt, S: r}
 }
 
